@@ -47,7 +47,8 @@ import lightworks.tomography.mappings as _maps
 import lightworks.tomography.utils as _tutils
 
 import c15
-from c15 import PCTOR, PNAMES, SQ2, apply_gates, build_base, cmat, dual_rail, snapshot, snap_equal
+from c15 import PCTOR, PNAMES, SQ2, apply_gates, build_base, cmat, dual_rail, renorm, snapshot, snap_equal
+from lightworks.emulator.results import SamplingResult
 
 SCALE = 10**15
 INAMES = ["X+", "X-", "Y+", "Y-", "Z+", "Z-"]
@@ -100,6 +101,16 @@ def embed(n_full, vis, blocks):
         x, y = vis[2 * i], vis[2 * i + 1]
         m[np.ix_([x, y], [x, y])] = b
     return m
+
+
+def _shared_tables():
+    """fingerprint of the module-level circuits every tomography object adds to its experiments"""
+    out = {}
+    for nm, (st, g) in _maps.INPUT_MAPPING.items():
+        out["in:" + nm] = (list(st), g.n_modes, np.array(g.U_full).tobytes())
+    for nm, g in _maps.MEASUREMENT_MAPPING.items():
+        out["meas:" + nm] = (g.n_modes, np.array(g.U_full).tobytes())
+    return out
 
 
 class _Patch:
@@ -160,7 +171,12 @@ class C16:
             "fidelity (targets: V itself, other gate products, Haar-random unitaries) with noiseless integer counts (total 1e15) "
             "computed from Simulator amplitudes of every requested circuit, order of the required settings natural or permuted; "
             "random dyadic matrices/data for the transcribed MLE pieces (A matrix, data vector, forward model with clipping, gradient, "
-            "TP projection); malformed result lists; constructor validation. Non-trivial = a full tomography run or a non-constant "
+            "TP projection); malformed result lists; constructor validation. Counts as integers (equal or different totals per "
+            "setting), relative frequencies or un-normalised probabilities, as dict or SamplingResult; experiment_args through the "
+            "constructor or the attribute; the experiment as function, bound method or assigned through the setter; two process() "
+            "calls on one object (first call fine / raising / short / invalid data) with the base circuit extended in place or a "
+            "live Parameter changed in between; the callback edits every circuit it receives; the shared INPUT/MEASUREMENT_MAPPING "
+            "circuits must stay unchanged. Non-trivial = a full tomography run or a non-constant "
             "matrix input; distinct = distinct case JSON")
     TRUSTED = ["np.linalg.pinv / solve are oracles (contract: the unique solution of an invertible system); the model run realises them by an "
                "exact closed-form / Gauss-Jordan solve and the correspondence compares with numpy",
@@ -251,6 +267,21 @@ class C16:
         for k in range(4 if quick else 30):
             cases.append(dict(kind=rng.choice(["li", "gf", "mle"]), n=1, gates=[["H", 0]], perm=None, target="same",
                               bad=rng.choice(["short", "long", "invalid", "empty", "zero"]), bseed=rng.randrange(10**6)))
+        # API forms and histories (see _impl_tomo): normalisation of the returned counts, optional experiment_args and
+        # how they are set, how the experiment function is given, results as SamplingResult objects,
+        # what the first of two process() calls does and how the base circuit is edited between the two calls
+        for c in cases:
+            if c["kind"] in ("li", "mle", "gf") and not c.get("bad"):
+                c["norm"] = rng.choice(["int", "int", "float", "sub", "varint"])
+                c["args"] = rng.choice([None, None, [], [7], ["tag", 3]])
+                c["args_form"] = rng.choice(["ctor", "attr"])
+                c["exp_form"] = rng.choice(["ctor", "ctor", "setter", "method"])
+                c["as_result"] = rng.random() < 0.25
+                if c.get("twice"):
+                    c["first"] = rng.choice(["ok", "ok", "raise", "short", "invalid"])
+                    c["edit"] = rng.choice(["add", "param"])
+                    c["pq"] = rng.randrange(c["n"])
+                    c["th"] = [round(rng.uniform(-3, 3), 6), round(rng.uniform(-3, 3), 6)]
         for cls, nq, base, ex in itertools.product(["li", "mle", "gf"], [1, 2, True, 1.5, None], ["c2", "c4", "c5", "cz_h", "list"],
                                                    ["fn", "none", "builtin"]):
             if rng.random() < (0.8 if quick else 0.3):
@@ -336,9 +367,17 @@ class C16:
             c["_skip"] = True
             return {"res": {"skip": "the base circuit does not implement a unitary on the dual-rail basis"},
                     "inputs": [], "circ_ok": True, "aux": {"problems": [], "V": None}}
-        base = build_base(n, c["gates"][:-1] if twice else c["gates"])
+        edit = c.get("edit", "add") if twice else None
+        param = None
+        if edit == "param":          # the base circuit holds a live Parameter whose value changes between the two calls
+            base = build_base(n, c["gates"])
+            param = lw.Parameter(c["th"][0])
+            apply_gates(base, [["PSP", c["pq"], param]])
+        else:
+            base = build_base(n, c["gates"][:-1] if twice else c["gates"])
         before = snapshot(base)
         v = qubit_unitary(base, n)
+        shared0 = _shared_tables()
         aux = {"problems": [], "V": cmat(v) if v is not None else None}
         received_inputs, returned, circ_ok = [], [], []
         outs = [dual_rail(z, n) for z in range(2**n)]
@@ -350,13 +389,35 @@ class C16:
 
         phase = {"first": twice}
 
-        def experiment(circuits, inputs):
+        norm = c.get("norm", "int")
+        seen_args = aux["args_seen"] = []
+
+        def scribble(circuits):
+            # the circuits handed to the callback are the callback's: editing them must not reach the base circuit,
+            # the shared preparation / basis-change circuits or a later process() call
+            for circ in circuits:
+                try:
+                    circ.ps(0, 0.9)
+                    circ.bs(0)
+                except Exception:  # noqa: BLE001
+                    pass
+
+        def experiment(circuits, inputs, *extra):
+            seen_args.append(list(extra))
             if phase["first"]:
+                how = c.get("first", "ok")
                 res0 = []
                 for circ, ins in zip(circuits, inputs):
                     amps0 = np.array(Simulator(circ).simulate(ins, [State(o) for o in outs]).array)[0]
                     p0 = np.abs(amps0) ** 2
                     res0.append({State(list(o)): float(x) for o, x in zip(outs, p0 / p0.sum())})
+                scribble(circuits)
+                if how == "raise":
+                    raise RuntimeError("the experiment failed")
+                if how == "short":
+                    return res0[:-1]
+                if how == "invalid":
+                    res0[0] = {State([1, 1] * n): 5}
                 return res0
             out = []
             req = patch.req or []
@@ -377,7 +438,7 @@ class C16:
                 amps = np.array(Simulator(circ).simulate(ins, [State(o) for o in outs]).array)[0]
                 p = np.abs(amps) ** 2
                 p = p / p.sum()
-                items = [[o, [int(round(float(x) * SCALE)), 1]] for o, x in zip(outs, p)]
+                items = renorm([(o, int(round(float(x) * SCALE))) for o, x in zip(outs, p)], norm, rng)
                 out.append(items)
             bad = c.get("bad")
             if bad == "short":
@@ -393,19 +454,40 @@ class C16:
                 j = rng.randrange(len(out))
                 out[j] = [[o, [0, 1]] for o, _ in out[j]]
             returned.extend(out)
-            return [{State(list(s)): (num if den == 1 else num / den) for s, (num, den) in items} for items in out]
+            dicts = [{State(list(s)): (num if den == 1 else num / den) for s, (num, den) in items} for items in out]
+            scribble(circuits)
+            if c.get("as_result"):
+                return [SamplingResult(d_, ins_) for d_, ins_ in zip(dicts, list(inputs) + [inputs[0]] * len(dicts))]
+            return dicts
 
+        class Lab:
+            def run(self_, circuits, inputs, *extra):  # noqa: N805
+                return experiment(circuits, inputs, *extra)
+
+        def stale(circuits, inputs, *extra):  # noqa: ARG001
+            raise AssertionError("the experiment function given to the constructor was called after it had been replaced")
+
+        exp_form, args, args_form = c.get("exp_form", "ctor"), c.get("args"), c.get("args_form", "ctor")
+        ex = Lab().run if exp_form == "method" else experiment
         res2 = None
         with patch, warnings.catch_warnings():
             warnings.simplefilter("ignore")
-            tomo = CLASSES[k](n, base, experiment)
+            kw = {"experiment_args": list(args)} if (args is not None and args_form == "ctor") else {}
+            tomo = CLASSES[k](n, base, stale if exp_form == "setter" else ex, **kw)
+            if exp_form == "setter":
+                tomo.experiment = ex
+            if args is not None and args_form == "attr":
+                tomo.experiment_args = list(args)
             if twice:
                 try:
                     tomo.process(*([np.identity(2**n)] if k == "gf" else []))
                 except Exception:  # noqa: BLE001   (the first call's outcome is not what this case observes)
                     pass
                 phase["first"] = False
-                apply_gates(base, c["gates"][-1:])
+                if edit == "param":
+                    param.set(c["th"][1])
+                else:
+                    apply_gates(base, c["gates"][-1:])
                 before = snapshot(base)
                 v = qubit_unitary(base, n)
                 aux["V"] = cmat(v) if v is not None else None
@@ -418,8 +500,12 @@ class C16:
                     aux["U"] = cmat(u)
                     val = tomo.process(u)
                     res = {"ok": float(val)}
+                    if tomo.fidelity != val and not (val != val and tomo.fidelity != tomo.fidelity):
+                        aux["problems"].append(".fidelity is not the value the last process() call returned")
                 else:
                     choi = np.array(tomo.process())
+                    if not np.array_equal(np.array(tomo.choi), choi, equal_nan=True):
+                        aux["problems"].append(".choi is not the matrix the last process() call returned")
                     if k == "li":
                         c["_V"] = frac_mat(v)
                         vq = np.array([[complex(Fraction(e[0], e[1]), Fraction(e[2], e[3])) for e in row] for row in c["_V"]])
@@ -447,6 +533,8 @@ class C16:
                 res = {"err": name if name in core.ERR_CODES.values() else "OtherError"}
         if not snap_equal(before, snapshot(base)):
             aux["problems"].append("base circuit changed by process()")
+        if _shared_tables() != shared0:
+            aux["problems"].append("a shared circuit of INPUT_MAPPING / MEASUREMENT_MAPPING was modified by the tomography")
         c["_req"] = patch.req or []
         c["_results"] = returned
         obs = {"res": res, "inputs": received_inputs, "circ_ok": all(circ_ok) and len(circ_ok) > 0, "aux": aux}
@@ -545,7 +633,7 @@ class C16:
         if k == "tpfix":
             if obs["tr_out"] > 1e-9:
                 return None        # (cannot happen: the channel is built trace preserving)
-            if obs["moved"] > 1e-9:
+            if not (obs["moved"] <= 1e-9):
                 return (f"_tp_proj moves the Choi matrix of a trace-preserving channel by {obs['moved']:.3g}: it does not enforce "
                         f"trace preservation in the ordering of choi_from_unitary")
             return None
@@ -561,6 +649,11 @@ class C16:
         aux, res, n = obs["aux"], obs["res"], c["n"]
         if aux["problems"]:
             return "; ".join(aux["problems"][:3])
+        exp_args = list(c.get("args") or [])
+        if "args_seen" in aux and not aux["args_seen"]:
+            return "the experiment function in force (given to the constructor or assigned to .experiment afterwards) was never called"
+        if any(a != exp_args for a in aux.get("args_seen", [])):
+            return f"the experiment callback was called with extra arguments {aux['args_seen']}, expected {exp_args} in every call"
         if c.get("bad"):
             if c["bad"] in ("short", "invalid", "empty", "zero") and "ok" in res:
                 return f"malformed results ({c['bad']}) accepted"
@@ -575,30 +668,30 @@ class C16:
         if k == "li":
             choi = np.array([[complex(*e) for e in row] for row in res["ok"]])
             dd = float(np.abs(choi - ref).max())
-            if dd > 1e-8:
+            if not (dd <= 1e-8):
                 return f"reference mismatch: LI choi differs from choi_from_unitary(V) by {dd:.3g}"
-            if abs(aux["fidelity"] - 1) > 1e-6:
+            if not (abs(aux["fidelity"] - 1) <= 1e-6):
                 return f"reference mismatch: LI fidelity against choi_from_unitary(V) is {aux['fidelity']}"
             return None
         if k == "mle":
             herm, mineig, tp = aux["cptp"]
-            if herm > 1e-6 or mineig < -1e-6:
+            if not (herm <= 1e-6 and mineig >= -1e-6):
                 return f"MLE choi not positive: hermiticity defect {herm:.3g}, min eigenvalue {mineig:.3g}"
-            if tp > 1e-3:
+            if not (tp <= 1e-3):
                 return f"MLE choi not trace preserving: partial trace deviates by {tp:.3g}"
-            if aux["fidelity"] < 0.99:
+            if not (aux["fidelity"] >= 0.99):
                 return f"MLE fidelity against choi_from_unitary(V) is {aux['fidelity']:.4f} < 0.99"
             # the same number without the library's process_fidelity: the reference is pure, so
             # tr sqrt(sqrt(r) c sqrt(r)) = sqrt(<<V|c|V>>) / d
             mc = np.array([[complex(*e) for e in row] for row in aux["choi"]])
             indep = float(np.sqrt(max(np.real(v.flatten().conj() @ mc @ v.flatten()), 0.0))) / d
-            if indep < 0.99 or abs(indep - aux["fidelity"]) > 1e-4:
+            if not (indep >= 0.99 and abs(indep - aux["fidelity"]) <= 1e-4):
                 return f"MLE fidelity: independent value {indep:.6f} vs reported {aux['fidelity']:.6f} (bound 0.99)"
             return None
         if k == "gf":
             u = np.array([[complex(*e) for e in row] for row in aux["U"]])
             want = (abs(np.trace(u.conj().T @ v)) ** 2 + d) / (d * (d + 1))
-            if abs(res["ok"] - want) > 1e-8:
+            if not (abs(res["ok"] - want) <= 1e-8):
                 return f"gate fidelity {res['ok']!r} != (|tr(U^+V)|^2+d)/(d(d+1)) = {want!r}"
             return None
         return None
